@@ -245,8 +245,14 @@ func c14CallInLoop(r *rand.Rand) Case {
 		readPath = ap
 	}
 	callee := leafAct("callee", pOp{Kind: "log", Tmpl: []tpart{{Lit: "got="}, {Var: readPath + ".top"}, {Lit: "/"}, {Var: readPath + ".sub.v"}, {Lit: "/"}, {Var: readPath + ".sub.w"}}})
+	// ... also when the call sits two loops deep: the arguments read BOTH loop variables when the call runs
+	nested := r.Intn(3) == 0
+	top := []tpart{{Var: "it"}}
+	if nested {
+		top = []tpart{{Var: "o"}, {Var: "it"}}
+	}
 	call := pOp{Kind: "call", Name: "fn", ArgsPath: ap, Args: map[string]any{
-		"top": []tpart{{Var: "it"}},
+		"top": top,
 		"sub": map[string][]tpart{"v": {{Lit: "<"}, {Var: "it"}, {Lit: ">"}}, "w": {{Lit: "const"}}},
 	}}
 	body := &pAct{Name: "body", Ops: []pOp{call}}
@@ -257,9 +263,15 @@ func c14CallInLoop(r *rand.Rand) Case {
 			{Name: "c3", Order: 100, Ops: []pOp{call}},
 		}}
 	}
+	loop := pOp{Kind: "foreach", Var: "it", Items: items, Body: body}
+	outer := []string{""}
+	if nested {
+		outer = []string{"a", "b"}
+		loop = pOp{Kind: "foreach", Var: "o", Items: outer, Body: &pAct{Name: "ob", Ops: []pOp{loop}}}
+	}
 	root := &pAct{Name: "r", Children: []*pAct{
 		{Name: "s0", Order: 0, Ops: []pOp{{Kind: "define", Name: "fn", Body: callee}}},
-		{Name: "s1", Order: 1, Ops: []pOp{{Kind: "foreach", Var: "it", Items: items, Body: body}}},
+		{Name: "s1", Order: 1, Ops: []pOp{loop}},
 	}}
 	c := execCase("call-in-loop", root, data, true)
 	if d, ok := c.Desc.(map[string]any); ok {
@@ -270,10 +282,12 @@ func c14CallInLoop(r *rand.Rand) Case {
 					seen = append(seen, strings.TrimPrefix(e, "L:got="))
 				}
 			}
-			for _, it := range items {
-				want = append(want, it+"/<"+it+">/const")
-				if len(body.Children) > 0 {
-					want = append(want, "changed/<changed>/const")
+			for _, ov := range outer {
+				for _, it := range items {
+					want = append(want, ov+it+"/<"+it+">/const")
+					if len(body.Children) > 0 {
+						want = append(want, ov+"changed/<changed>/const")
+					}
 				}
 			}
 			if !reflect.DeepEqual(seen, want) {
